@@ -151,6 +151,10 @@ def attribute_names(ctx, report, rule, recv, c, side, cm):
             if got and want not in got:
                 report.add(rule, '%s@parse/attr[%s]' % (c.construct, want),
                            'the field the specification calls %s is parsed into attribute %s' % (want, sorted(got)))
+            elif not got and sp.get('carried', True):
+                report.add(rule, '%s@parse/dropped[%s]' % (c.construct, want),
+                           'the field the specification calls %s is read and then dropped: it reaches no attribute of the parsed object, so the '
+                           'encoded value is not recovered' % want)
         else:
             src = a.extra.get('val_base') if a.extra.get('expanded_from') is not None and a.extra.get('val_base') is not None else a.val
             roots = {r[0] for r in compose_root(src)} if src is not None else set()
@@ -158,6 +162,19 @@ def attribute_names(ctx, report, rule, recv, c, side, cm):
             if roots and want not in roots:
                 report.add(rule, '%s@compose/attr[%s]' % (c.construct, want),
                            'at the position of %s the composer writes attribute %s' % (want, sorted(roots)))
+            elif not roots and sp.get('carried', True) and (src is None or is_const_like(src)):
+                report.add(rule, '%s@compose/constant[%s]' % (c.construct, want),
+                           'at the position of %s the composer writes a constant, not a value of the object' % want)
+
+
+def is_const_like(v):
+    from .values import ClassV, ObjV, is_const
+    from .model import EnumMember
+    if is_const(v) or isinstance(v, EnumMember):
+        return True
+    if isinstance(v, ObjV):
+        return all(is_const_like(x) for x in v.attrs.values())
+    return False
 
 
 def base_defines_layout(c, base):
